@@ -459,9 +459,15 @@ class TypeDependencyAnalysis(DefaultVisitor):
             return
         namespace, decl = decl
         node_id, _ = self._get_node_id()
-        self._inferred_nodes[node_id].append(
-            DeclarationNode("/".join(namespace), decl)
-        )
+        decl_node = DeclarationNode("/".join(namespace), decl)
+        if isinstance(decl, ast.FieldDeclaration) and \
+                decl_node not in self.type_graph:
+            # The analysis of a single function never visits the fields of
+            # the enclosing class: record the (fixed) type of the field, so
+            # that what flows from it is known.
+            construct_edge(self.type_graph, decl_node,
+                           TypeNode(decl.get_type(), None), Edge.DECLARED)
+        self._inferred_nodes[node_id].append(decl_node)
 
     def _get_receiver_type(self, receiver_t):
         # If the receiver type is parameterized, compute type variable
